@@ -30,9 +30,10 @@ Record cfg := mkCfg {
   wp_sock : bool;       (* the write pump closes the socket whenever it ends *)
   wp_cc_sock : bool;    (* the closeConn arm of the write pump closes the socket whether or not the close frame was sent *)
   inv_connctx : bool;   (* Invoke's wait has an arm for the connection's context *)
-  close_again : bool    (* Close returns at once when the address connection is gone already *)
+  close_again : bool;   (* Close returns at once when the address connection is gone already *)
+  csm_final : bool      (* the state manager never leaves Shutdown *)
 }.
-Definition good : cfg := mkCfg true true true true true true true true true.
+Definition good : cfg := mkCfg true true true true true true true true true true.
 
 Inductive cstate := Idle | Connecting | Ready | TransientFailure | Shutdown.
 Definition cstate_eqb (a b : cstate) : bool :=
@@ -133,7 +134,9 @@ Definition wp_leave (t : tr) : tr :=
   t <| wp := WPAfter |> <| sockc := if wp_sock c then true else sockc t |> <| wdn := true |>.
 
 Definition set_csm (s : st) (v : cstate) : st :=
-  if cstate_eqb (csm s) v then s else s <| csm := v |> <| nch := true |>.
+  if cstate_eqb (csm s) v then s
+  else if csm_final c && cstate_eqb (csm s) Shutdown then s
+  else s <| csm := v |> <| nch := true |>.
 
 Definition pumps_gone (s : st) (g : nat) : bool :=
   match rp (getT s g), wp (getT s g) with RPExit, WPExit => true | _, _ => false end.
